@@ -9,22 +9,23 @@ from __future__ import annotations
 import random
 
 SIZES = [0, 1, 1, 2, 2, 2, 3, 3, 4, 6, None, None]
-CB_KINDS = [None, None, "s", "s", "a", "g", "sx", "ax", "gx", "sT"]
-CB_KINDS_SAFE = [None, "s", "a", "g"]
+CB_KINDS = [None, None, "s", "s", "a", "g", "sx", "ax", "gx", "sT", "sm", "am", "so", "sp", "ap", "gp"]
+CB_KINDS_SAFE = [None, "s", "a", "g", "sm"]
+ASH = [0, 1, 2, 3, 3, 5, 6]      # payload shapes (4 is the counting iterator of rejected requests)
 POINTS = ["ws", "we", "wc", "ecb", "ccb", "it", "fa"]
 
 BASE_W = {
     "spawn": 10, "gate": 22, "gate_x": 2, "gate_c": 1, "run": 14, "idle": 8,
     "cancel": 5, "cancel_group": 4, "cancel_all": 1, "stop": 3,
     "flush": 4, "gather": 1, "until_closed": 1, "lock": 1, "unlock": 1, "bad_spawn": 1,
-    "read": 1, "new_pool": 0.2,
+    "read": 1, "new_pool": 0.2, "resize_idle": 0.5,
 }
 
 # per-property emphasis (multipliers on BASE_W) and knobs
 PROFILES = {
-    "C01": {"w": {"spawn": 1.6, "cancel": 1.2, "flush": 0.8, "gate_c": 3.0}, "sizes": [0, 1, 1, 2, 2, 3, 4, None]},
+    "C01": {"w": {"spawn": 1.6, "cancel": 1.2, "flush": 0.8, "gate_c": 3.0, "resize_idle": 6.0}, "sizes": [0, 1, 1, 2, 2, 3, 4, None]},
     "C02": {"w": {"cancel": 1.6, "cancel_group": 1.4, "flush": 1.8, "gate_x": 2.0, "gate_c": 3.0}, "cb": CB_KINDS},
-    "C03": {"w": {"cancel": 1.8, "cancel_group": 1.4, "stop": 1.5, "flush": 1.2}, "cb": ["s", "a", "g", "g", "sx", "sT", None]},
+    "C03": {"w": {"cancel": 1.8, "cancel_group": 1.4, "stop": 1.5, "flush": 1.2}, "cb": ["s", "a", "g", "g", "sx", "sT", None, "sm", "am", "sxm", "so", "sp", "ap", "gp", "sxo"]},
     "C04": {"w": {"spawn": 1.5, "lock": 3.0, "gather": 2.0, "cancel": 0.7}, "kinds": ["apply", "apply", "apply", "map"], "simple": 0.45, "named": 0.35},
     "C05": {"w": {"spawn": 1.4, "cancel": 1.4, "gate": 1.3}, "kinds": ["map", "starmap", "doublestarmap", "map", "apply"], "simple": 0.0},
     "C06": {"w": {"cancel": 5.0, "flush": 1.5, "cancel_group": 0.6}, "stubborn": 0.35},
@@ -84,15 +85,18 @@ class Gen:
                 p["name"] = rng.choice(["alpha", "beta", "p"]) + str(i)
             elif rng.random() < 0.15:
                 p["name"] = "jobs"          # the same explicit name may be given to several pools
+            elif rng.random() < 0.12:
+                p["name"] = ""              # an empty name is no name: the pool is named by its index
             if cls == "S":
-                p["fk"] = rng.choice(["sync", "sync", "plain"])
+                p["fk"] = rng.choice(["sync", "sync", "plain", "pmeth"])
                 p["fn"] = rng.randrange(3)
-                p["ash"] = rng.randrange(4)
+                p["ash"] = rng.choice(ASH)
                 p["ecb"] = rng.choice(self.cb_kinds)
                 p["ccb"] = rng.choice(self.cb_kinds)
                 p["sc"] = [self._script() for _ in range(rng.choice([1, 2, 4]))]
                 if p["fk"] == "sync" and rng.random() < self.fail_rate:
                     p["fail"] = sorted(rng.sample(range(12), rng.choice([1, 2])))
+                    p["fx"] = rng.randrange(5)
             pools.append(p)
         cfg = {"hmask": rng.choice([0, 0, 1, 3, 6, 7, 12, 21]), "pools": pools}
         if rng.random() < 0.15:
@@ -123,7 +127,7 @@ class Gen:
             k = rng.choices(kinds, [self.w[x] for x in kinds])[0]
             st = getattr(self, "_g_" + k)(sim)
             if st is not None:
-                if self.reentrant and st["op"] not in ("run", "idle", "gate", "read", "new_pool", "bad_pool") and rng.random() < self.reentrant:
+                if self.reentrant and st["op"] not in ("run", "idle", "gate", "read", "new_pool", "bad_pool", "resize_idle") and rng.random() < self.reentrant:
                     st["at"] = [rng.choice(POINTS), rng.choice([1, 1, 2, 3])]
                 return st
         return {"op": "run", "n": 1}
@@ -146,10 +150,18 @@ class Gen:
         p = {"cls": cls, "size": rng.choice(SIZES)}
         if rng.random() < 0.25:
             p["name"] = "late" + str(len(sim.pools))
+        elif rng.random() < 0.15:
+            p["name"] = ""
         if cls == "S":
-            p.update({"fk": "sync", "fn": rng.randrange(3), "ash": rng.randrange(4), "ecb": rng.choice(CB_KINDS_SAFE),
+            p.update({"fk": "sync", "fn": rng.randrange(3), "ash": rng.choice(ASH), "ecb": rng.choice(CB_KINDS_SAFE),
                       "ccb": rng.choice(CB_KINDS_SAFE), "sc": [self._script()]})
         return {"op": "new_pool", "cfg": p}
+
+    def _g_resize_idle(self, sim):
+        cands = [pc for pc in sim.pools if sim._pool_is_empty(pc)]
+        if not cands:
+            return None
+        return {"op": "resize_idle", "p": self.rng.choice(cands).idx, "v": self.rng.choice(self.prof.get("sizes", SIZES))}
 
     def _g_read(self, sim):
         return {"op": "read"}
@@ -169,7 +181,7 @@ class Gen:
             return st
         kind = rng.choice(self.prof.get("kinds", ["apply", "apply", "map", "starmap", "doublestarmap"]))
         st["kind"] = kind
-        st["fk"] = rng.choice(["sync", "sync", "sync", "plain"])
+        st["fk"] = rng.choice(["sync", "sync", "sync", "plain", "pmeth"])
         st["fn"] = rng.randrange(3)
         st["ecb"] = rng.choice(self.cb_kinds)
         st["ccb"] = rng.choice(self.cb_kinds)
@@ -179,9 +191,10 @@ class Gen:
                                    "apply-job-group-1", "starmap-fetch_it-group-0", "start-group-1", "", "default"])
         if kind == "apply":
             st["num"] = rng.choice([0, 1, 1, 2, 3, 4, 5, 8])
-            st["ash"] = rng.randrange(4)
+            st["ash"] = rng.choice(ASH)
             if st["fk"] == "sync" and rng.random() < self.fail_rate and st["num"]:
                 st["fail"] = sorted(rng.sample(range(st["num"]), min(st["num"], rng.choice([1, 2]))))
+                st["fx"] = rng.randrange(5)
         else:
             n = rng.choice([0, 1, 2, 3, 4, 5, 7, 10])
             badp = rng.choice([0.0, 0.0, 0.15, 0.3]) if kind != "map" else 0.0
@@ -192,8 +205,13 @@ class Gen:
             if n and rng.random() < self.iterx:
                 st["elems"][rng.randrange(n)] = 4        # the iterable raises when it gets here
             st["nc"] = rng.choice([1, 1, 2, 2, 3, 5])
+            if rng.random() < 0.3:
+                st["itk"] = 1            # a re-iterable container with a length instead of a one-pass iterator
+            if kind == "doublestarmap" and rng.random() < 0.2:
+                st["elems"] = [5 if e == 0 else e for e in st["elems"]]     # keyword names like the library's own parameters
             if st["fk"] == "sync" and rng.random() < self.fail_rate and n:
                 st["fail"] = sorted(rng.sample(range(n), min(n, rng.choice([1, 2]))))
+                st["fx"] = rng.randrange(5)
         if bad is not None and kind == "apply" and rng.random() < 0.4:
             st["ash"] = 4            # args given as a one-shot counting iterator (only used for rejected requests)
         if bad == "notcoro":
@@ -323,3 +341,170 @@ class Gen:
 
     def _g_unlock(self, sim):
         return {"op": "unlock", "p": self._pool(sim).idx}
+
+
+class PhasedGen(Gen):
+    """Structured scenarios: (1) requests, (2) some tasks finish / fail / are cancelled so that tasks sit in every
+    stage (running, inside a slow cancel callback, ended inside a slow end callback, completely done),
+    (3) flush()/gather_and_close()/until_closed() calls are started, (4) everything still pending is released in a
+    seeded order with seeded outcomes (return, raise, callback cancelled) while those calls are waiting, (5) final
+    flush.  Uniform random runs reach such overlaps rarely; here every run has them."""
+
+    CBS = ["g", "g", "gx", "s", "a", "sx", "ax", None, None, "sm", "sT", "gm", "so", "gp", "ap"]
+
+    def __init__(self, seed: int, prop: str, clean: bool = True):
+        super().__init__(seed, prop, clean)
+        rng = self.rng
+        self.phase = 0
+        self.queue = []
+        self.calls = list(rng.choice([["flush"], ["gather"], ["flush", "flush"], ["flush", "gather"], ["wait", "gather"],
+                                      ["gather", "gather"], ["gather", "flush"], ["gather", "wait"], ["flush", "wait", "gather"]]))
+        self.p_x = rng.choice([0.0, 0.15, 0.3, 0.5])
+        self.p_c = rng.choice([0.0, 0.0, 0.15, 0.3])
+        self.early = rng.choice([0.3, 0.5, 0.7])
+        self.cancel_frac = rng.choice([0.0, 0.2, 0.4])
+        self.mid = rng.choice([0.0, 0.1, 0.25])       # extra cancels / flushes while releasing
+        self.total = 0
+
+    def make_config(self):
+        rng = self.rng
+        cls = "S" if rng.random() < self.prof.get("simple", 0.25) else "T"
+        p = {"cls": cls, "size": rng.choice([None, None, 8, 6, 4, 3, 2])}
+        if cls == "S":
+            p.update({"fk": "sync", "fn": rng.randrange(3), "ash": rng.choice(ASH), "ecb": rng.choice(self.CBS),
+                      "ccb": rng.choice(self.CBS), "sc": [self._pscript() for _ in range(3)]})
+        return {"hmask": rng.choice([0, 0, 3, 7]), "pools": [p]}
+
+    def _pscript(self):
+        rng = self.rng
+        s = {"g": rng.choice([1, 1, 1, 2])}
+        if rng.random() < 0.12:
+            s["end"] = rng.choice(["x", "x", "rx"])
+        if rng.random() < self.stubborn:
+            s["oc"] = [rng.choice(["s", "r", "x"])]
+        return s
+
+    def _how(self, key):
+        r = self.rng.random()
+        if key[0] == "w":
+            return "x" if r < self.p_x else None
+        return "c" if r < self.p_c else None
+
+    def _pause(self):
+        r = self.rng.random()
+        if r < 0.45:
+            return [{"op": "idle"}]
+        if r < 0.8:
+            return [{"op": "run", "n": self.rng.choice([1, 1, 2, 3, 5])}]
+        return []
+
+    def next_step(self, sim):
+        self.total += 1
+        if self.total > 140 or sim.hit_cap:
+            return None
+        while not self.queue:
+            if self.phase > 6:
+                return None
+            getattr(self, "_phase%d" % self.phase)(sim)
+        return self.queue.pop(0)
+
+    def _gate_step(self, key):
+        st = {"op": "gate", "key": list(key)}
+        how = self._how(key)
+        if how:
+            st["how"] = how
+        return st
+
+    def _phase0(self, sim):
+        rng = self.rng
+        pc = sim.pools[0]
+        for _ in range(rng.choice([1, 2, 2, 3])):
+            self.label += 1
+            if pc.cls == "S":
+                self.queue.append({"op": "spawn", "p": 0, "r": self.label, "kind": "start", "num": rng.choice([1, 2, 3])})
+                continue
+            kind = rng.choice(["apply", "apply", "map", "starmap"])
+            st = {"op": "spawn", "p": 0, "r": self.label, "kind": kind, "fk": rng.choice(["sync", "sync", "plain", "pmeth"]),
+                  "fn": rng.randrange(3), "ecb": rng.choice(self.CBS), "ccb": rng.choice(self.CBS),
+                  "sc": [self._pscript() for _ in range(rng.choice([1, 2, 3]))]}
+            if kind == "apply":
+                st["num"] = rng.choice([1, 2, 3])
+                st["ash"] = rng.choice(ASH)
+            else:
+                st["elems"] = [0] * rng.choice([1, 2, 3, 4])
+                st["nc"] = rng.choice([1, 2, 3])
+            self.queue.append(st)
+        self.queue.append({"op": "idle"})
+        self.phase = 1
+
+    def _phase1(self, sim):
+        rng = self.rng
+        pc = sim.pools[0]
+        live = [t for t in pc.tasks if t.state == "L"]
+        rng.shuffle(live)
+        for t in live:
+            r = rng.random()
+            if r < self.early and t.inv is not None:
+                self.queue.append(self._gate_step(("w", t.req.label, t.inv.idx, t.inv.gate_no)))
+            elif r < self.early + self.cancel_frac:
+                self.queue.append({"op": "cancel", "p": 0, "ids": [self._task_ref(t)]})
+            if rng.random() < 0.3:
+                self.queue += self._pause()
+        self.queue += self._pause() or [{"op": "run", "n": 2}]
+        self.phase = 2
+
+    def _phase2(self, sim):
+        # release some (not all) of the slow callbacks that are open by now
+        rng = self.rng
+        keys = [k for k in sim.pending_gates() if k[0] == "c"]
+        rng.shuffle(keys)
+        for k in keys[rng.choice([0, 1, 1, 2, 99]):]:
+            self.queue.append(self._gate_step(k))
+        self.queue += self._pause()
+        self.phase = 3
+
+    def _phase3(self, sim):
+        rng = self.rng
+        for c in self.calls:
+            rex = int(rng.random() < 0.35)
+            if c == "flush":
+                self.queue.append({"op": "flush", "p": 0, "rex": rex})
+            elif c == "gather":
+                self.queue.append({"op": "gather", "p": 0, "rex": rex})
+            else:
+                self.queue.append({"op": "until_closed", "p": 0})
+            if rng.random() < 0.6:
+                self.queue += self._pause()
+        self.phase = 4
+        self.idled = False
+
+    def _phase4(self, sim):
+        rng = self.rng
+        keys = sim.pending_gates()
+        if not keys:
+            if self.idled:
+                self.phase = 5
+            else:
+                self.idled = True
+                self.queue.append({"op": "idle"})
+            return
+        self.idled = False
+        self.queue.append(self._gate_step(rng.choice(keys)))
+        self.queue += self._pause()
+        if rng.random() < self.mid:
+            pc = sim.pools[0]
+            live = [t for t in pc.tasks if t.state == "L"]
+            r = rng.random()
+            if r < 0.5 and live:
+                self.queue.append({"op": "cancel", "p": 0, "ids": [self._task_ref(rng.choice(live))]})
+            elif r < 0.8:
+                self.queue.append({"op": "flush", "p": 0, "rex": int(rng.random() < 0.5)})
+            else:
+                self.queue.append({"op": "read"})
+
+    def _phase5(self, sim):
+        self.queue += [{"op": "idle"}, {"op": "flush", "p": 0, "rex": 1}, {"op": "idle"}, {"op": "read"}]
+        self.phase = 6
+
+    def _phase6(self, sim):
+        self.phase = 7
